@@ -37,6 +37,9 @@ func init() {
 			"\tcase StateClosedByUs, StateHandshake:\n\t\tcallback(sonicerrors.ErrCancelled)\n\tdefault:\n\t\tcallback(io.EOF)\n\t}\n}\n\n// Close sends", "\tcase StateClosedByUs, StateHandshake:\n\t\tcallback(sonicerrors.ErrCancelled)\n\tdefault:\n\t}\n}\n\n// Close sends", "C17-R2"},
 		mutant{"frame released before the write completes", "codec/websocket/stream.go",
 			"\t\ts.codecConn.AsyncWriteNext(*sent, func(err error, _ int) {\n\t\t\ts.releaseFrame(sent)\n", "\t\ts.releaseFrame(sent)\n\t\ts.codecConn.AsyncWriteNext(*sent, func(err error, _ int) {\n", "C17-R3"},
+		mutant{"frame dequeued only when its write completed", "codec/websocket/stream.go",
+			"\t\tsent := s.pendingFrames[0]\n\t\ts.pendingFrames = s.pendingFrames[1:]\n\n\t\ts.codecConn.AsyncWriteNext(*sent, func(err error, _ int) {\n\t\t\ts.releaseFrame(sent)\n",
+			"\t\tsent := s.pendingFrames[0]\n\n\t\ts.codecConn.AsyncWriteNext(*sent, func(err error, _ int) {\n\t\t\ts.pendingFrames = s.pendingFrames[1:]\n\t\t\ts.releaseFrame(sent)\n", "C17-R3"},
 		mutant{"second write family site on the read path", "codec/websocket/stream.go",
 			"func (s *Stream) asyncNextFrame(callback AsyncFrameCallback) {\n", "func (s *Stream) asyncNextFrame(callback AsyncFrameCallback) {\n\ts.AsyncFlush(func(error) {})\n", "C17-R1|(*codec/websocket.Stream).asyncNextFrame"},
 	)
@@ -129,7 +132,7 @@ func runC17(c *Ctx) {
 	// closures that are themselves completions (handed to lower layers) are covered through the summaries above.
 
 	// ------------------------------------------------------------------------------------------------ R3
-	c.rule("C17-R3", "the completion of a transport write releases the frame, continues the flush only on success and reports the error otherwise", 2)
+	c.rule("C17-R3", "the completion of a transport write releases the frame, continues the flush only on success and reports the error otherwise", 3)
 	{
 		release := p.Method(ws, "Stream", "releaseFrame")
 		for _, call := range callsByName(w.asyncFlush, "AsyncWriteNext") {
@@ -142,6 +145,17 @@ func runC17(c *Ctx) {
 				}
 			}
 			c.check(!early, w.asyncFlush, "frame lifetime", in.Pos(), "the frame is released by the completion, not before", "the frame is returned to the pool before the transport write completes: a concurrent AcquireFrame reuses and overwrites a frame that is still being encoded/written")
+			// the frame leaves the queue before its write is started: a flush started meanwhile (every asynchronous read begins
+			// with one) must not find it again
+			popped := false
+			for _, a := range storesTo(w.asyncFlush, w.pendingFrames) {
+				if sl, ok := stripConv(a.Val).(*ssa.Slice); ok && loadOfField(sl.X, w.pendingFrames) && sl.Low != nil && dominatesInstr(a.Instr, in) {
+					if k, ok := constInt(sl.Low); ok && k >= 1 {
+						popped = true
+					}
+				}
+			}
+			c.check(popped, w.asyncFlush, "dequeue before write", in.Pos(), "the frame is removed from the pending queue before its transport write starts", "the frame stays in the pending queue while its transport write is in flight: a read (which flushes first) or another write started before the completion re-encodes and sends the same frame again and overwrites the first write's continuation")
 			for _, a := range call.Common().Args {
 				mc, ok := strip(a).(*ssa.MakeClosure)
 				if !ok {
